@@ -501,7 +501,8 @@ def refusal(repo, res, canon, f, src_cls):
     slot = "%s.observations['transfer']" % src_cls
     from ..paths import expanded_paths
     n = 0
-    for p in expanded_paths(repo, f, 1, lambda cal, call, sp: cal.name == 'observation_for_transfer'):
+    for p in expanded_paths(repo, f, 1, lambda cal, call, sp: cal.cls is not None and canon.class_name(cal.cls.name) == src_cls
+                            and cal.name not in ('has_capacity_for', 'receive_observation', 'transfer_observation')):
         rets = [e.node for e in p.events if e.kind == 'stmt' and isinstance(e.node, ast.Return)
                 and e.frame.depth == 0]
         if not rets or not (isinstance(rets[-1].value, ast.Constant) and rets[-1].value.value is False):
